@@ -404,7 +404,36 @@ PROPS = {
         assumptions=['import_module/os.environ models', 'non-empty strings'],
         trusted_base=[],
     ),
+    'C18': dict(
+        level='proof',
+        text='the operating-system side of a connection is an ASSUMED device contract (select may say readable only if a byte is left '
+             'or the peer has gone, and may say not-readable at any time - that is every segmentation; read(1) returns the next byte '
+             'of an arbitrary stream, b\'\' at its end once the peer has gone, or raises OSError; a connection is released when the '
+             'socket and every makefile() object are closed). Against it the real SocketPort._receive is proved with a loop '
+             'invariant for a stream of ANY length and content from ANY position: the parser is fed exactly the bytes read, in stream '
+             'order, each once, one byte per successful select, nothing after end of stream; the port closes iff end of stream was '
+             'read, which requires that every byte was delivered; a closed port has released the connection (socket and both file '
+             'objects: peer sees the disconnect). SocketPort.__init__ makes the receive queue the parser queue, _send writes the '
+             'encoding once and flushes (broken pipe closes), PortServer.accept/_receive/_send never block on the listener unless '
+             'asked, drop closed clients and hand every open client to MultiPort._receive (one pass, C11); '
+             'parse_address(format_address(h, p)) == (h, p) for EVERY host without colon and every port 1..65535 (cvc5). That the '
+             'parser turns the fed bytes into exactly the complete messages is C04-C06, that iteration drains and ends on a closed '
+             'port is C11; the composition and the OS assumptions are exercised on real socketpairs / loopback TCP (bounded).',
+        note='trusted: pyvc, z3/cvc5; ASSUMED: device contract of select/read/makefile/close above, str.from_int/str.to_int lemmas, '
+             'split/int models; a connection RESET (OSError from read) is re-raised by design and is outside the property',
+        clauses=[
+            ['SocketPort._receive: fed bytes == stream bytes read, in order, once each; close iff EOF read; no read after EOF / without select', 'P'],
+            ['close releases socket and both file objects exactly once (peer sees EOF: assumed OS semantics); idempotent', 'P'],
+            ['__init__: queue is the parser queue, unbuffered rb/wb files on the given connection, name is the address', 'P'],
+            ['_send: one write of the encoding + flush; errno 32 closes and releases; errors re-raised as OSError', 'P'],
+            ['PortServer: non-blocking listener poll, closed clients dropped, every open client polled once, accepted port named after peer', 'P'],
+            ['parse_address(format_address(host, port)) == (host, port), all hosts without colon, ports 1..65535', 'P'],
+            ['bytes fed -> exactly the complete messages (parser, C04-C06); iteration ends cleanly on closed port (C11)', 'PA'],
+            ['real socketpair: every cut offset x segmentations; close seen by peer; TCP server with 3 clients; address grid', 'B'],
+        ],
+        assumptions=['OS device contract (select/read/makefile/close)', 'parser contracts of C04-C06 and port contracts of C11 compose', 'theory lemmas for str.from_int'],
+        trusted_base=[],
+    ),
 }
 
-NOT_APPLICABLE = {pid: _PENDING for pid in
-                  ['C18']}
+NOT_APPLICABLE = {}
